@@ -9,9 +9,11 @@ functions, EVERY domain and EVERY evaluation point (no bounds).
 -/
 import FDAProofs.Lemmas.BSpline
 import FDAProofs.Lemmas.Bases
+import FDAProofs.Lemmas.LegendreReal
+import FDAProofs.Lemmas.TrigBases
 
 namespace C18
-open FDA FDA.BSpline FDA.Bases Finset
+open FDA FDA.BSpline FDA.Bases Finset intervalIntegral
 
 /-! ## B-splines -/
 
@@ -36,20 +38,8 @@ example : basisRaw 0 1 4 3 (1 / 2) 1 = cardinal 3 ((1 / 2 - uniformKnot 0 1 4 3 
 vanishes at and beyond the end knot of each function. -/
 theorem mask_is_identity (dmin dmax : ℚ) (nfun p : ℕ) (hp : p < nfun) (hd : dmin < dmax)
     (x : ℚ) (j : ℕ) (hj : j < nfun) :
-    bsplineBasis dmin dmax nfun p x j = basisRaw dmin dmax nfun p x j := by
-  unfold bsplineBasis basisWith maskWith
-  change basisRaw dmin dmax nfun p x j * _ = _
-  split
-  · simp
-  · rename_i hx
-    have hh := dx_pos dmin dmax nfun p hp hd
-    rw [basisRaw_eq_cardinal dmin dmax nfun p hp hd x j hj, cardinal_eq_zero_of_ge]; · simp
-    rw [knots_eq dmin dmax nfun p hp] at hx
-    have hx := not_lt.mp hx
-    rw [le_div_iff₀ hh]
-    unfold uniformKnot at hx ⊢
-    push_cast at hx
-    linarith
+    bsplineBasis dmin dmax nfun p x j = basisRaw dmin dmax nfun p x j :=
+  FDA.BSpline.mask_is_identity dmin dmax nfun p hp hd x j hj
 
 /-- The coded basis coincides with the cardinal B-spline on the equally spaced knots. -/
 theorem bspline_eq_cardinal (dmin dmax : ℚ) (nfun p : ℕ) (hp : p < nfun) (hd : dmin < dmax)
@@ -226,6 +216,46 @@ def legendre_orthogonal_statement : Prop :=
 theorem polyIntSym_monomial (k : ℕ) :
     polyIntSym (List.replicate k 0 ++ [1]) = (1 - (-1) ^ (k + 1)) / ((k : ℚ) + 1) :=
   FDA.Bases.polyIntSym_monomial k
+
+/-- Orthogonality of the Legendre polynomials as a statement about integrals over `ℝ`:
+`∫_{-1}^{1} P_m(x) P_n(x) dx = 0` (`m ≠ n`), `2/(2n+1)` (`m = n`), degrees `< 16`; `P_n` is the
+real polynomial with the coefficient list whose rational values are the model's `legendre n`
+(`C18.legendre_coeffs_eval`). -/
+theorem legendre_orthogonal_real_partial (m n : ℕ) (hm : m < 16) (hn : n < 16) :
+    ∫ x in (-1:ℝ)..1, polyEvalR (legendreCoeffs m) x * polyEvalR (legendreCoeffs n) x
+      = if m = n then 2 / (2 * (n : ℝ) + 1) else 0 := by
+  simp_rw [← polyEvalR_mul]
+  rw [integral_polyEvalR]
+  have h := legendre_orthogonal_partial m n hm hn
+  unfold legendreInner at h
+  rw [h]
+  by_cases hmn : m = n
+  · rw [if_pos hmn, if_pos hmn]; push_cast; ring
+  · rw [if_neg hmn, if_neg hmn]; simp
+
+/-- The real Legendre polynomial takes the model's rational values at rational points. -/
+theorem legendre_real_eval (n : ℕ) (x : ℚ) :
+    polyEvalR (legendreCoeffs n) (x : ℝ) = ((legendre n x : ℚ) : ℝ) := by
+  rw [polyEvalR_cast, legendre_coeffs_eval]
+
+/-! ## Fourier and Wiener functions (continuous statements over `ℝ`)
+
+The driver evaluates the same formulas with `Float`; the quadrature error of a discrete
+grid is not part of these statements (partial clause). -/
+
+/-- The Wiener functions `√2·sin((k−½)πt)`, `k ≥ 1`, are orthonormal on `[0, 1]`. -/
+theorem wiener_orthonormal (j k : ℕ) (hj : 1 ≤ j) (hk : 1 ≤ k) :
+    ∫ t in (0:ℝ)..1, BasesReal.wiener j t * BasesReal.wiener k t = if j = k then 1 else 0 :=
+  BasesReal.wiener_orthonormal j k hj hk
+
+/-- The Fourier functions of `_basis_fourier` (constant, then `cos`/`sin` pairs in the angle
+`2π(t−a)/(b−a) − π`) are orthonormal on the interval `[a, b]` spanned by the grid, every size. -/
+theorem fourier_orthonormal (a b : ℝ) (hab : a < b) (j k : ℕ) :
+    ∫ t in a..b, BasesReal.fourier a b j t * BasesReal.fourier a b k t = if j = k then 1 else 0 :=
+  BasesReal.fourier_orthonormal a b hab j k
+
+example : ∫ t in (0:ℝ)..2, BasesReal.fourier 0 2 1 t * BasesReal.fourier 0 2 2 t = 0 := by
+  rw [fourier_orthonormal 0 2 (by norm_num)]; simp
 
 /-! ## Normalisation, intercept, tensor products -/
 
